@@ -63,12 +63,32 @@ def Exc.str : Exc → Str
   | .bindingError m => L "binding_error not connected: " ++ m
   | .dangling => L "dangling-reference"
 
+/-- which object a locator entry / the dispatcher is: absent, the user's (prototype) object, or
+    an object owned by the shell -/
+inductive Obj | absent | proto | own deriving DecidableEq, Repr, Inhabited
+
+def Obj.str : Obj → Str | .absent => L "none" | .proto => L "proto" | .own => L "other"
+
+/-- facility bookkeeping of a constructed shell (member initialisation in declaration order:
+    m_runtime, m_dispatcher, m_locator, m_encapsulee) -/
+structure FacInfo where
+  compLocatorIsProto : Bool     -- the component was handed the user's locator object itself
+  compPump : Obj                -- what `dzn::pump` the component's locator holds
+  compRuntime : Obj
+  compExtra : Bool              -- the user's other service is still reachable
+  dispatcher : Obj              -- the pump the shell posts to
+  hasLocatorAccessor : Bool
+  protoKeysBefore : Nat
+  protoKeysAfter : Nat
+  deriving DecidableEq, Repr, Inhabited
+
 structure World where
   ir : ShellIR
   allPorts : List (Port × InterfaceD)      -- every port of the encapsulee, declaration order
   grantIndex : Option Nat                  -- index of the granting enum field
   instName : Str := []
   protoPump : Bool := false
+  fac : FacInfo := default
   store : List (RSlot × RH) := []
   queue : List Closure := []
   inDispatch : Bool := false
@@ -95,16 +115,20 @@ def World.reply (w : World) (compSide : Bool) (port ev : Str) : Val :=
 
 def isVoid (ev : Event) : Bool := ev.replyType = [L "void"]
 
+/-- the values a scripted handler leaves in its arguments (out ← 1000+j, inout ← old+1000+j) -/
+def rewritten (ev : Event) (args : List Val) : List Val :=
+  (List.zip (List.range ev.formals.length) (List.zip ev.formals args)).map fun (j, f, a) =>
+    match f.dir with
+    | .in_ => a
+    | .out => (1000 + j : Int)
+    | .inout => a + 1000 + j
+
 /-- the scripted behaviour of a mock handler: observation, out/inout formals rewritten, reply -/
 def scriptedRun (w : World) (who : Who) (port : Str) (ev : Event) (args : List Val) :
     World × Option Val × List Val :=
   let w := w.emit (L "obs " ++ who.str ++ L " " ++ port ++ L "." ++ ev.name ++ L " args=" ++ valsStr args ++
                    L " disp=" ++ (if w.inDispatch then L "1" else L "0"))
-  let args' := (List.zip (List.range ev.formals.length) (List.zip ev.formals args)).map fun (j, f, a) =>
-    match f.dir with
-    | .in_ => a
-    | .out => (1000 + j : Int)
-    | .inout => a + 1000 + j
+  let args' := rewritten ev args
   let r := if isVoid ev then none else some (w.reply (who == .comp) port ev.name)
   (w, r, args')
 
@@ -286,27 +310,44 @@ def runAssigns (w : World) (as : List Assign) (cmv cid : Str) (itfOfLocal : Opti
     | some ev => w.set (resolveSlot a.lhs cmv cid) (.ir a.rhs ev cid cmv)
     | none => w) w
 
-def structMsg (w : World) (m : String) : Str := w.ir.structName ++ m.toList
+/-- `FacilitiesCheck`: the exception it throws, if any -/
+def facilitiesCheck (o : Origin) (structName : Str) (pump runtime : Bool) : Option Exc :=
+  match o with
+  | .create =>
+    if pump then some (.runtimeError (structName ++ L ": Overlapping dispatcher found (dzn::pump)"))
+    else if runtime then some (.runtimeError (structName ++ L ": Overlapping Dezyne runtime found (dzn::runtime)"))
+    else none
+  | .import_ =>
+    if !pump then some (.runtimeError (structName ++ L ": Dispatcher missing (dzn::pump)"))
+    else if !runtime then some (.runtimeError (structName ++ L ": Dezyne runtime missing (dzn::runtime)"))
+    else none
+
+/-- the facilities after member initialisation -/
+def facInfo (o : Origin) (pump runtime extra : Bool) : FacInfo :=
+  let n := (if pump then 1 else 0) + (if runtime then 1 else 0) + (if extra then 1 else 0)
+  match o with
+  | .create =>
+    -- m_locator = prototype.clone().set(m_runtime).set(m_dispatcher); m_encapsulee(m_locator)
+    { compLocatorIsProto := false, compPump := .own, compRuntime := .own, compExtra := extra, dispatcher := .own,
+      hasLocatorAccessor := true, protoKeysBefore := n, protoKeysAfter := n }
+  | .import_ =>
+    -- m_dispatcher = locator.get<dzn::pump>(); m_encapsulee(locator)
+    { compLocatorIsProto := true, compPump := if pump then .proto else .absent,
+      compRuntime := if runtime then .proto else .absent, compExtra := extra, dispatcher := .proto,
+      hasLocatorAccessor := false, protoKeysBefore := n, protoKeysAfter := n }
 
 /-- `FacilitiesCheck` + member initialisation + constructor body -/
 def construct (ir : ShellIR) (allPorts : List (Port × InterfaceD)) (grantIndex : Option Nat)
-    (pump runtime : Bool) (skip : Option (Str × EvDir × Str)) (name : Str) : Except Exc World :=
-  let w0 : World := { ir, allPorts, grantIndex, instName := name, protoPump := pump }
-  match ir.origin with
-  | .create =>
-    if pump then .error (.runtimeError (structMsg w0 ": Overlapping dispatcher found (dzn::pump)"))
-    else if runtime then .error (.runtimeError (structMsg w0 ": Overlapping Dezyne runtime found (dzn::runtime)"))
-    else
-      let w := compBind w0 skip
-      let w := { w with selectors := (ir.provides.filter (·.isMc)).map (fun p => { mv := p.target, port := p.name }) }
-      .ok (runAssigns w ir.ctorAssigns [] [] none)
-  | .import_ =>
-    if !pump then .error (.runtimeError (structMsg w0 ": Dispatcher missing (dzn::pump)"))
-    else if !runtime then .error (.runtimeError (structMsg w0 ": Dezyne runtime missing (dzn::runtime)"))
-    else
-      let w := compBind w0 skip
-      let w := { w with selectors := (ir.provides.filter (·.isMc)).map (fun p => { mv := p.target, port := p.name }) }
-      .ok (runAssigns w ir.ctorAssigns [] [] none)
+    (pump runtime : Bool) (skip : Option (Str × EvDir × Str)) (name : Str) (extra : Bool := false) :
+    Except Exc World :=
+  match facilitiesCheck ir.origin ir.structName pump runtime with
+  | some e => .error e          -- thrown while initialising the first facility member: no component yet
+  | none =>
+    let w0 : World := { ir, allPorts, grantIndex, instName := name, protoPump := pump,
+                        fac := facInfo ir.origin pump runtime extra }
+    let w := compBind w0 skip
+    let w := { w with selectors := (ir.provides.filter (·.isMc)).map (fun p => { mv := p.target, port := p.name }) }
+    .ok (runAssigns w ir.ctorAssigns [] [] none)
 
 /-! ### check_bindings / FinalConstruct -/
 
@@ -315,8 +356,7 @@ def pathOf (w : World) (port : Str) : Str :=
 
 /-- `port.check_bindings()`: in-events in declaration order, then out-events -/
 def checkPort (w : World) (obj : RObj) (itf : InterfaceD) (path : Str) : Option Exc :=
-  let evs := eventsOf itf .in_ ++ eventsOf itf .out
-  match evs.find? (fun e => (w.get { obj, dir := evDirOf e, ev := e.name }).isNone) with
+  match (eventsOf itf .in_ ++ eventsOf itf .out).find? (fun e => (w.get { obj, dir := evDirOf e, ev := e.name }).isNone) with
   | some e => some (.bindingError (path ++ L "." ++ (evDirOf e).str ++ L "." ++ e.name))
   | none => none
 
@@ -421,7 +461,7 @@ def callSlot (p : CppPortItf) (cid : Option Str) (ev : Str) (d : EvDir) : RSlot 
 def retLine (w0 w : World) (r : Option Val) (args : List Val) : Str :=
   L "ret " ++ (match r with | some v => intToStr v | none => L "void") ++ L " args=" ++ valsStr args ++
   L " posted=" ++ natToStr (w.posted - w0.posted) ++ L " shell=" ++ natToStr (w.shellCalls - w0.shellCalls) ++
-  L " pump=" ++ (if !w.pumpTouched then L "none" else if w.ir.origin = .import_ then L "proto" else L "other")
+  L " pump=" ++ (if !w.pumpTouched then L "none" else w.fac.dispatcher.str)
 
 def step (m : Machine) (line : Str) : Machine :=
   let toks := splitSpaces line
@@ -444,19 +484,17 @@ def step (m : Machine) (line : Str) : Machine :=
       let name := (kvs.lookup (L "name")).getD []
       let skip := (kvs.lookup (L "skipcomp")).bind parseSlotSpec
       let m := { m with world := none, replies := [] }
-      match construct m.ir m.allPorts m.grantIndex (flag "pump") (flag "runtime") skip name with
+      match construct m.ir m.allPorts m.grantIndex (flag "pump") (flag "runtime") skip name (flag "extra") with
       | .error e => m.emit (L "world exc " ++ e.str)
       | .ok w =>
         let m := m.emit (L "world ok")
-        let extra := flag "extra"
-        let create := m.ir.origin = .create
-        let nkeys := (if flag "pump" then 1 else 0) + (if flag "runtime" then 1 else 0) + (if extra then 1 else 0)
-        let m := m.emit (L "fac comp_loc=" ++ (if create then L "other" else L "proto") ++
-          L " comp_pump=" ++ (if create then L "other" else L "proto") ++
-          L " comp_runtime=" ++ (if create then L "other" else L "proto") ++
-          L " comp_extra=" ++ (if extra then L "1" else L "0") ++ L " shell_pump=na has_locator=" ++
-          (if create then L "1" else L "0") ++ L " locator_is_comp_loc=" ++ (if create then L "1" else L "na") ++
-          L " proto_keys=" ++ natToStr nkeys ++ L "/" ++ natToStr nkeys ++ L " meta_name=" ++ name)
+        let f := w.fac
+        let m := m.emit (L "fac comp_loc=" ++ (if f.compLocatorIsProto then L "proto" else L "other") ++
+          L " comp_pump=" ++ f.compPump.str ++ L " comp_runtime=" ++ f.compRuntime.str ++
+          L " comp_extra=" ++ (if f.compExtra then L "1" else L "0") ++ L " shell_pump=na has_locator=" ++
+          (if f.hasLocatorAccessor then L "1" else L "0") ++ L " locator_is_comp_loc=" ++
+          (if f.hasLocatorAccessor then L "1" else L "na") ++
+          L " proto_keys=" ++ natToStr f.protoKeysBefore ++ L "/" ++ natToStr f.protoKeysAfter ++ L " meta_name=" ++ name)
         -- ident lines in declaration order of the exposed ports
         let m := m.allPorts.foldl (fun m (pi : Port × InterfaceD) =>
           match findPort m.ir pi.1.name with
